@@ -112,3 +112,45 @@ pub fn ancillary_buf_view_contract() {
     let (up, ul) = { let s = buf.as_uninit(); (s.as_ptr() as usize, s.len()) };
     assert!(il == n && ul == 16 && ip == up);
 }
+
+/// 1-byte payload: CMSG_LEN(1) = 17 <= room = 20 < CMSG_SPACE(1) = 24 — the message does NOT fit (push advances by
+/// CMSG_SPACE); it must be refused and the buffer must stay empty (seeded change C13-4)
+#[derive(Clone, Copy, PartialEq, Eq)]
+pub struct B1(pub u8);
+impl AncillaryData for B1 {
+    const SIZE: usize = 1;
+    fn encode(&self, buffer: &mut [MaybeUninit<u8>]) -> Result<(), CodecError> {
+        if buffer.is_empty() { return Err(CodecError::BufferTooSmall); }
+        buffer[0] = MaybeUninit::new(self.0);
+        Ok(())
+    }
+    fn decode(buffer: &[u8]) -> Result<Self, CodecError> {
+        if buffer.is_empty() { return Err(CodecError::BufferTooSmall); }
+        assert!(buffer.len() == 1, "decode is handed exactly the payload");
+        Ok(B1(buffer[0]))
+    }
+}
+#[kani::proof]
+#[kani::unwind(50)]
+pub fn cmsg_unaligned_payload_tight_buffer() {
+    let mut buf = AncillaryBuf::<20>::new();
+    let v: u8 = kani::any();
+    {
+        let mut b = buf.builder();
+        assert!(is_too_small(b.push(1, 2, &B1(v))), "a message that does not fit the buffer was accepted");
+    }
+    assert!(buf.as_init().len() == 0);
+    // and with room for exactly CMSG_SPACE(1) it fits and round-trips, padding included
+    let mut buf = AncillaryBuf::<24>::new();
+    {
+        let mut b = buf.builder();
+        assert!(b.push(1, 2, &B1(v)).is_ok());
+    }
+    assert!(buf.as_init().len() == 24);
+    let mut it = unsafe { AncillaryIter::new(&buf) };
+    match it.next() {
+        Some(a) => match a.data::<B1>() { Ok(w) => assert!(w.0 == v), Err(e) => { std::mem::forget(e); assert!(false) } },
+        None => assert!(false),
+    }
+    assert!(it.next().is_none());
+}
